@@ -169,15 +169,12 @@ def scenarios_from(sc, name, c, quick, seed, rng, out):
     for evs in res.printed('SCN'):
         scns[json.dumps(evs, sort_keys=True)] = evs
     # keep maximal histories only (a prefix is covered by its extension)
-    keys = sorted(scns, key=len, reverse=True)
-    kept = []
-    texts = []
-    for k in keys:
-        body = k[:-1]
-        if any(t.startswith(body) for t in texts):
-            continue
-        texts.append(k)
-        kept.append(scns[k])
+    prefixes = set()
+    for evs in scns.values():
+        for n in range(len(evs)):
+            if evs[n]['e'] == 'caughtup':
+                prefixes.add(json.dumps(evs[:n], sort_keys=True))
+    kept = [evs for k, evs in scns.items() if k not in prefixes]
     if len(kept) < 5:
         raise MachineryError(f'{name}: only {len(kept)} scenarios exported:\n{res.out[-1500:]}')
     return kept
